@@ -106,7 +106,10 @@ func isBytesBufferW(w io.Writer) bool {
 //@ split
 //@ property C07 C16 C20
 //@ requires e != nil && 0 <= e.baseOffset && e.baseOffset+int64(len(e.Buf)) < 1<<61-1
-//@ requires nsLocalOK(e.Names.offsets, e.Names.unquotedNames) && nsRemoteOK(e.Names.offsets, len(e.Buf)) && distinctArrays(e.Names.unquotedNames, e.Buf) && nsQuoted(e.Names.offsets, e.Buf)
+//@ requires names-local: nsLocalOK(e.Names.offsets, e.Names.unquotedNames)
+//@ requires names-remote: nsRemoteOK(e.Names.offsets, len(e.Buf))
+//@ requires names-distinct: distinctArrays(e.Names.unquotedNames, e.Buf)
+//@ requires names-quoted: nsQuoted(e.Names.offsets, e.Buf)
 //@ modifies e.Buf, e.Buf[:cap(e.Buf)], e.baseOffset, e.Names.unquotedNames, e.Names.unquotedNames[:cap(e.Names.unquotedNames)], e.Names.offsets[:]
 //@ ensures skipped: old(e.wr == nil || avoidFlushSpec(e.Tokens.Last, e.Buf)) ==> result == nil && sameSlice(e.Buf, old(e.Buf)) && unchanged(e.Buf) && e.baseOffset == old(e.baseOffset)
 //@ ensures count: e.baseOffset+int64(len(e.Buf)) == old(e.baseOffset)+int64(old(len(e.Buf)))+int64(ite(old(e.wr != nil && !avoidFlushSpec(e.Tokens.Last, e.Buf) && len(e.Tokens.Stack) == 0 && !e.Flags.Get(jsonflags.OmitTopLevelNewline)), 1, 0))
@@ -315,3 +318,151 @@ func asStructOpt(o Options) *jsonopts.Struct {
 //@ modifies d.s.state.Tokens.Stack, d.s.state.Tokens.Last, d.s.state.Names.offsets, d.s.state.Names.unquotedNames, d.s.state.Namespaces, d.s.decodeBuffer.peekPos, d.s.decodeBuffer.peekErr, d.s.decodeBuffer.buf, d.s.decodeBuffer.prevStart, d.s.decodeBuffer.prevEnd, d.s.decodeBuffer.baseOffset, d.s.decodeBuffer.rd, d.s.Struct
 //@ ensures fresh: len(d.s.Tokens.Stack) == 0 && d.s.Tokens.Last == stateTypeArray && d.s.baseOffset == 0 && d.s.prevStart == 0 && d.s.prevEnd == 0 && d.s.peekPos == 0 && d.s.rd == r && len(d.s.buf) == 0
 //@ ensures no-alias: old(isBytesBuffer(d.s.rd)) ==> cap(d.s.buf) == 0
+
+// ---------------------------------------------------------------- AppendRaw
+
+//@ spec asEncState
+func asEncState(state interface {
+	options() *jsonopts.Struct
+	offsetAt(pos int) int64
+	AppendStackPointer(b []byte, where int) []byte
+}) *encoderState {
+	e, _ := state.(*encoderState)
+	return e
+}
+
+//@ spec asDecState
+func asDecState(state interface {
+	options() *jsonopts.Struct
+	offsetAt(pos int) int64
+	AppendStackPointer(b []byte, where int) []byte
+}) *decoderState {
+	d, _ := state.(*decoderState)
+	return d
+}
+
+// wrapSyntacticError dispatches through an interface value and builds the error
+// text; it is NOT proved. Assumed: it returns a non-nil error for a non-nil
+// error, and its only effect on the coder is that of AppendStackPointer, which
+// copies the names still referenced in the buffer into the name stack (the
+// representation changes, the names do not).
+//
+//@ func wrapSyntacticError
+//@ trusted NOT PROVED: interface dispatch and error-text construction; frame and non-nil result assumed
+//@ modifies asEncState(state).state.Names.unquotedNames, asEncState(state).state.Names.unquotedNames[:cap(asEncState(state).state.Names.unquotedNames)], asEncState(state).state.Names.offsets[:], asDecState(state).state.Names.unquotedNames, asDecState(state).state.Names.unquotedNames[:cap(asDecState(state).state.Names.unquotedNames)], asDecState(state).state.Names.offsets[:], asDecState(state).decodeBuffer.buf[:]
+//@ ensures nonnil: err != nil ==> result != nil
+
+// The callbacks passed to AppendRaw (strconv.Append*, time/duration appenders,
+// MarshalText/AppendText wrappers) only append to the buffer they are given.
+//
+//@ extern funcvalue:appendFn(b []byte) (result0 []byte, result1 error)
+//@ trusted ASSUMED: an AppendRaw callback only appends to its argument (all call sites pass append-style functions)
+//@ modifies b[len(b):cap(b)]
+//@ ensures sameOrFresh(result0, b)
+//@ ensures result1 == nil ==> len(result0) >= len(b) && vForall(0, len(b), func(k int) bool { return result0[k] == old(b[k]) })
+
+// AppendRaw: a failing callback leaves the encoder untouched; on success the
+// state machine advances by exactly one string or number, the buffer is extended
+// (never rewritten below its old length), and for a string the text between the
+// quotes either needs no escaping at all (NeedEscape is exact) or is the output
+// of AppendQuote.
+//
+//@ func (*encoderState).AppendRaw
+//@ split
+//@ property C02 C06 C11 C20
+//@ requires e != nil && (k == '"' || k == '0') && smInv(e.Tokens.Stack, e.Tokens.Last) && blankString(e.Indent) && blankString(e.IndentPrefix)
+//@ requires 0 <= e.baseOffset && e.baseOffset+int64(len(e.Buf)) < 1<<60 && len(e.Buf) < 1<<40
+//@ requires len(e.availBuffer) == 0 && distinctArrays(e.availBuffer, e.Buf) && distinctArrays(e.Names.unquotedNames, e.Buf)
+//@ requires nsLocalOK(e.Names.offsets, e.Names.unquotedNames) && nsRemoteOK(e.Names.offsets, len(e.Buf)) && nsQuoted(e.Names.offsets, e.Buf)
+//@ requires e.Tokens.Last.NeedObjectName() && !e.Flags.Get(jsonflags.AllowDuplicateNames) && e.Tokens.Last.isValidNamespace() ==> len(e.Names.offsets) > 0 && (e.Tokens.Last.isActiveNamespace() ==> len(e.Namespaces) > 0)
+//@ requires e.Tokens.Last.NeedObjectName() && e.Flags.Get(jsonflags.AllowDuplicateNames) ==> len(e.Names.offsets) > 0
+//@ modifies everything
+//@ ensures depth: len(e.Tokens.Stack) == old(len(e.Tokens.Stack))
+//@ ensures step-or-unchanged: e.Tokens.Last == old(e.Tokens.Last) || e.Tokens.Last == old(e.Tokens.Last)+1
+//@ ensures ok-step: result == nil ==> e.Tokens.Last == old(e.Tokens.Last)+1
+//@ at call appendFn#0 assert untouched-string: sameSlice(e.Buf, old(e.Buf)) && e.Tokens.Last == old(e.Tokens.Last) && e.baseOffset == old(e.baseOffset) && vForall(0, len(e.Buf), func(j int) bool { return e.Buf[j] == old(e.Buf[j]) })
+//@ at call appendFn#1 assert untouched-number: sameSlice(e.Buf, old(e.Buf)) && e.Tokens.Last == old(e.Tokens.Last) && e.baseOffset == old(e.baseOffset) && vForall(0, len(e.Buf), func(j int) bool { return e.Buf[j] == old(e.Buf[j]) })
+//@ at call e.NeedFlush#0 assert committed-len: len(e.Buf) >= old(len(e.Buf)) && pos >= old(len(e.Buf)) && pos <= len(e.Buf)
+//@ at call e.NeedFlush#0 assert committed-prefix: vForall(0, old(len(e.Buf)), func(j int) bool { return e.Buf[j] == old(e.Buf[j]) })
+//@ at call e.NeedFlush#0 assert committed-quotes: k == '"' ==> len(e.Buf) >= pos+2 && e.Buf[pos] == '"' && e.Buf[len(e.Buf)-1] == '"'
+
+// ---------------------------------------------------------------- tokens and WriteToken
+
+// tokOK: a raw token still denotes the previously read token of its decoder (it
+// has not been voided by a later read); the documented misuse panic of Kind is
+// unreachable under it.
+//
+//@ spec tokRawOK
+func tokRawOK(prevStart, prevEnd, n int, baseOffset int64, num uint64) bool {
+	return 0 <= prevStart && prevStart <= prevEnd && prevEnd <= n && prevStart < n && 0 <= baseOffset && baseOffset < 1<<61 && uint64(baseOffset+int64(prevStart)) == num
+}
+
+//@ extern strconv.AppendInt(dst []byte, i int64, base int) (result []byte)
+//@ trusted strconv: appends the decimal spelling of i
+//@ modifies dst[len(dst):cap(dst)]
+//@ ensures sameOrFresh(result, dst)
+//@ ensures len(result) >= len(dst)+1
+//@ ensures vForall(0, len(dst), func(k int) bool { return result[k] == old(dst[k]) })
+
+//@ extern math.Float32frombits(b uint32) (result float32)
+//@ trusted math
+
+//@ extern math.Float64frombits(b uint64) (result float64)
+//@ trusted math
+
+//@ func (Token).Kind
+//@ property C06 C20
+//@ requires t.raw != nil ==> tokRawOK(t.raw.prevStart, t.raw.prevEnd, len(t.raw.buf), t.raw.baseOffset, t.num)
+//@ ensures exact-number: t.raw == nil && t.num != 0 ==> result == '0'
+//@ ensures exact-string: t.raw == nil && t.num == 0 && len(t.str) != 0 ==> result == '"'
+//@ ensures zero: t.raw == nil && t.num == 0 && len(t.str) == 0 ==> result == 0
+//@ ensures raw: t.raw != nil ==> result == normKind[t.raw.buf[t.raw.prevStart]]
+
+//@ func (Token).appendString
+//@ split
+//@ property C06 C11 C20
+//@ requires flags != nil
+//@ requires t.raw != nil ==> tokRawOK(t.raw.prevStart, t.raw.prevEnd, len(t.raw.buf), t.raw.baseOffset, t.num) && t.raw.prevStart < t.raw.prevEnd && t.raw.buf[t.raw.prevStart] == '"' && distinctArrays(dst, t.raw.buf)
+//@ requires t.raw == nil ==> len(t.str) != 0 && t.num == 0
+//@ modifies dst[len(dst):cap(dst)]
+//@ ensures alias: sameOrFresh(result0, dst)
+//@ ensures length: len(result0) >= len(dst)
+//@ ensures prefix: vForall(0, len(dst), func(k int) bool { return result0[k] == old(dst[k]) })
+//@ ensures quotes: result1 == nil ==> len(result0) >= len(dst)+2 && result0[len(dst)] == '"'
+
+//@ func (Token).appendNumber
+//@ split
+//@ property C06 C10 C20
+//@ requires flags != nil
+//@ requires t.raw != nil ==> tokRawOK(t.raw.prevStart, t.raw.prevEnd, len(t.raw.buf), t.raw.baseOffset, t.num) && t.raw.prevStart < t.raw.prevEnd && normKind[t.raw.buf[t.raw.prevStart]] == '0' && distinctArrays(dst, t.raw.buf)
+//@ requires t.raw == nil ==> t.num != 0 && len(t.str) > 0 && (t.str[0] == 'F' || t.str[0] == 'f' || t.str[0] == 'i' || t.str[0] == 'u')
+//@ modifies dst[len(dst):cap(dst)]
+//@ ensures alias: sameOrFresh(result0, dst)
+//@ ensures length: len(result0) >= len(dst)
+//@ ensures prefix: vForall(0, len(dst), func(k int) bool { return result0[k] == old(dst[k]) })
+
+// WriteToken commit protocol: everything is built in a local copy of the buffer
+// header and stored back only after the state machine accepted the token. So:
+// a rejected call (any error that is not a flush error) leaves the buffer header,
+// the bytes below its length, the offset and the state machine exactly as they
+// were; an accepted call advances the state machine by exactly one step of the
+// token's kind, extends the buffer without touching the bytes already in it, and
+// clears the tag flags on descent into an object or array.
+//
+//@ func (*encoderState).WriteToken
+//@ split
+//@ property C06 C19 C20
+//@ requires e != nil && smInv(e.Tokens.Stack, e.Tokens.Last) && blankString(e.Indent) && blankString(e.IndentPrefix)
+//@ requires t.raw != nil ==> tokRawOK(t.raw.prevStart, t.raw.prevEnd, len(t.raw.buf), t.raw.baseOffset, t.num) && t.raw.prevStart < t.raw.prevEnd && distinctArrays(e.Buf, t.raw.buf) && len(t.raw.buf) < 1<<40
+//@ requires t.raw == nil && t.num != 0 ==> len(t.str) > 0 && (t.str[0] == 'F' || t.str[0] == 'f' || t.str[0] == 'i' || t.str[0] == 'u')
+//@ requires 0 <= e.baseOffset && e.baseOffset+int64(len(e.Buf)) < 1<<60 && len(e.Buf) < 1<<40
+//@ requires distinctArrays(e.Names.unquotedNames, e.Buf) && nsLocalOK(e.Names.offsets, e.Names.unquotedNames) && nsRemoteOK(e.Names.offsets, len(e.Buf)) && nsQuoted(e.Names.offsets, e.Buf)
+//@ requires names-depth: e.Tokens.Last.isObject() ==> len(e.Names.offsets) > 0 && (!e.Flags.Get(jsonflags.AllowDuplicateNames) ==> len(e.Namespaces) > 0)
+//@ requires names-named: len(e.Names.offsets) > 0 && e.Names.offsets[len(e.Names.offsets)-1] == invalidOffset ==> e.Tokens.Last.isObject() && e.Tokens.Last.Length() == 0
+//@ modifies everything
+//@ at call wrapSyntacticError#0 assert rejected-buffer: sameSlice(e.Buf, old(e.Buf)) && e.baseOffset == old(e.baseOffset)
+//@ at call wrapSyntacticError#0 assert rejected-state: e.Tokens.Last == old(e.Tokens.Last) && len(e.Tokens.Stack) == old(len(e.Tokens.Stack)) && vForall(0, len(e.Tokens.Stack), func(j int) bool { return e.Tokens.Stack[j] == old(e.Tokens.Stack[j]) })
+//@ at call e.NeedFlush#0 assert committed-len: len(e.Buf) >= old(len(e.Buf))
+//@ at call e.NeedFlush#0 assert committed-prefix: vForall(0, old(len(e.Buf)), func(j int) bool { return e.Buf[j] == old(e.Buf[j]) })
+//@ at call e.NeedFlush#0 assert tags-cleared: (k == '{' || k == '[') ==> !e.Flags.Has(jsonflags.TagFlags)
+//@ at call e.NeedFlush#0 assert step: (k == '{' || k == '[') == (len(e.Tokens.Stack) == old(len(e.Tokens.Stack))+1) && (k == '}' || k == ']') == (len(e.Tokens.Stack) == old(len(e.Tokens.Stack))-1) && ((k == 'n' || k == 'f' || k == 't' || k == '"' || k == '0') ==> e.Tokens.Last == old(e.Tokens.Last)+1 && len(e.Tokens.Stack) == old(len(e.Tokens.Stack)))
